@@ -632,7 +632,11 @@ pub fn excwalk_session(rep: &mut Report, check: &str, seed: u64, verbose: bool) 
                 let obs = sess.act(Action::Step);
                 let q = sess.cpu.verif_pending();
                 sess.cpu.verif_clear_pending();
-                if q != pend && matches!(obs.real, RealOutcome::Ok(_)) {
+                // as multisets: the order among simultaneously pending requests is not pinned
+                let (mut qs, mut ps) = (q.clone(), pend.clone());
+                qs.sort_unstable();
+                ps.sort_unstable();
+                if qs != ps && matches!(obs.real, RealOutcome::Ok(_)) {
                     bad = true;
                     rep.finding("excwalk|pending-queue-disturbed", || format!("TRAPA #{} executed with requests {:?} pending left the queue as {:?}", t, pend, q), &replay);
                 }
